@@ -63,6 +63,11 @@ pub struct StageCase {
 	/// its sounds and effects stand still in between, its own volume and routes do not
 	#[serde(default)]
 	pub pause: Option<(usize, usize)>,
+	/// the pause and the resume fade over these many seconds (linear) instead of instantly: the
+	/// fade is one more gain on the path, interpolated per frame like the others; the chunk in
+	/// which the fade-out ends is silent, the track stands still from then on until the resume
+	#[serde(default)]
+	pub pause_fade: Option<(f64, f64)>,
 }
 
 pub fn gen(rng: &mut Rng, tier: Tier) -> StageCase {
@@ -123,6 +128,15 @@ pub fn gen(rng: &mut Rng, tier: Tier) -> StageCase {
 		callbacks,
 		sets,
 		pause,
+		pause_fade: if pause.is_some() && rng.chance(0.5) {
+			let d = |rng: &mut Rng| {
+				let any = rng.frange(0.0, total * 0.3);
+				*rng.pick(&[0.0, 1.5 / sample_rate as f64, any])
+			};
+			Some((d(rng), d(rng)))
+		} else {
+			None
+		},
 	}
 }
 
@@ -236,6 +250,16 @@ pub fn run(case: &StageCase) -> CaseResult {
 	let mut moving_chunks = 0u64;
 	let mut short_moving_chunks = 0u64;
 	let mut frames_checked = 0u64;
+	// faded pause / resume: the fade parameter (dB, 0 = unity) and where the track's life cycle is
+	#[derive(PartialEq, Clone, Copy)]
+	enum Life {
+		Playing,
+		Pausing,
+		Paused,
+		Resuming,
+	}
+	let mut fade = RefParam::new(0.0);
+	let mut life = Life::Playing;
 	'outer: for (cb, &frames) in case.callbacks.iter().enumerate() {
 		while let Some(s) = sets.peek() {
 			if s.at != cb {
@@ -262,15 +286,21 @@ pub fn run(case: &StageCase) -> CaseResult {
 			sets.next();
 		}
 		if let Some((p, r)) = case.pause {
+			let (d1, d2) = case.pause_fade.unwrap_or((0.0, 0.0));
 			if cb == p {
-				track.pause(instant);
+				track.pause(if case.pause_fade.is_some() { Tween { duration: Duration::from_secs_f64(d1), ..Default::default() } } else { instant });
+				fade.set(-60.0, d1, EasingSpec::Linear);
+				life = Life::Pausing;
 			}
 			if cb == r {
-				track.resume(instant);
+				track.resume(if case.pause_fade.is_some() { Tween { duration: Duration::from_secs_f64(d2), ..Default::default() } } else { instant });
+				fade.set(0.0, d2, EasingSpec::Linear);
+				life = Life::Resuming;
 			}
 		}
-		let paused = case.pause.map(|(p, r)| cb >= p && cb < r).unwrap_or(false);
-		let resuming = case.pause.map(|(_, r)| cb == r).unwrap_or(false);
+		let faded = case.pause_fade.is_some();
+		let mut paused = !faded && case.pause.map(|(p, r)| cb >= p && cb < r).unwrap_or(false);
+		let resuming = !faded && case.pause.map(|(_, r)| cb == r).unwrap_or(false);
 		let rep = device.callback(frames, 2, &mut out);
 		if let Some(p) = rep.panic {
 			res.fail(Violation::new("panic", format!("audio-panic: {}", panic_signature(&p)), p));
@@ -280,6 +310,21 @@ pub fn run(case: &StageCase) -> CaseResult {
 		let mut chunk = 0usize;
 		while at < frames {
 			let n = (frames - at).min(case.ibs);
+			if faded {
+				// the track's fade goes first; a fade-out that ends in this chunk makes it Paused at once
+				fade.advance(dt * n as f64);
+				if fade.tween.is_none() {
+					life = match life {
+						Life::Pausing => Life::Paused,
+						Life::Resuming => Life::Playing,
+						l => l,
+					};
+				}
+				paused = life == Life::Paused;
+				if paused {
+					fade.prev = fade.cur;
+				}
+			}
 			for (k, p) in params.iter_mut().enumerate() {
 				// a paused track does not process its sounds and effects: their tweens stand still;
 				// its own volume and its routes, the send track and the main track go on
@@ -304,7 +349,10 @@ pub fn run(case: &StageCase) -> CaseResult {
 				chunk += 1;
 				continue;
 			}
-			let any_moving = params.iter().any(|p| p.moving());
+			let any_moving = params.iter().any(|p| p.moving()) || (faded && fade.moving());
+			if faded && fade.moving() {
+				res.hit("stage_chunks_inside_a_pause_or_resume_fade");
+			}
 			if any_moving {
 				moving_chunks += 1;
 				if n < case.ibs {
@@ -313,10 +361,11 @@ pub fn run(case: &StageCase) -> CaseResult {
 			}
 			for i in 0..n {
 				let g: Vec<(f64, f64)> = params.iter().map(|p| p.gain(i, n)).collect();
+				let (f_lo, f_hi) = if faded { fade.gain(i, n) } else { (1.0, 1.0) };
 				// (the device output is clipped to [-1, 1])
 				let total = |g: [f64; 5], route: f64| -> f64 {
 					let pre = g[0] * g[1] * g[2];
-					(g[4] * (pre + g[3] * route * pre) * DC as f64).min(1.0)
+					(g[4] * (pre + g[3] * route * pre) * DC as f64)
 				};
 				// (the route volume is taken once per chunk: anywhere between its value before and after)
 				let (r_lo, r_hi) = if case.route.is_some() {
@@ -325,8 +374,8 @@ pub fn run(case: &StageCase) -> CaseResult {
 				} else {
 					(0.0, 0.0)
 				};
-				let want_lo = total([g[0].0, g[1].0, g[2].0, g[3].0, g[4].0], r_lo);
-				let want = total([g[0].1, g[1].1, g[2].1, g[3].1, g[4].1], r_hi);
+				let want_lo = (total([g[0].0, g[1].0, g[2].0, g[3].0, g[4].0], r_lo) * f_lo).min(1.0);
+				let want = (total([g[0].1, g[1].1, g[2].1, g[3].1, g[4].1], r_hi) * f_hi).min(1.0);
 				let (l, r) = (out[2 * (at + i)] as f64, out[2 * (at + i) + 1] as f64);
 				trace.f32(l as f32);
 				let tol = 3e-5 * want.abs() + 2e-7;
